@@ -197,18 +197,20 @@ fn check(c: &Case, rep: &mut Report) {
     }
 }
 
-fn cases(mut f: impl FnMut(u64, Case)) {
+fn cases(thorough: bool, mut f: impl FnMut(u64, Case)) {
     let mut i = 0u64;
+    let mems: &[usize] = if thorough { &[0, 1, 2, 3, 4, 5, 6, 7, 8, 12, 40] } else { &[0, 1, 4, 8, 12, 40] };
+    let keys: Vec<Vec<W>> = if thorough { vec![vec![], vec![5], vec![5, 6], vec![MAX], vec![MIN, 0, 7], vec![1; 9]] } else { vec![vec![], vec![5], vec![5, 6], vec![MAX]] };
     for op in 0..4u8 {
         for frame in [vec![], vec![77]] {
             for ext in 0..2u8 {
                 if (op == 0 || op == 2) && ext == 1 {
                     continue;
                 }
-                for key in [vec![], vec![5], vec![5, 6], vec![MAX]] {
+                for key in keys.clone() {
                     for klen_mode in 0..3u8 {
                         for count in [0, 1, 2, 3, -1, MAX] {
-                            for mem in [0usize, 1, 4, 8, 12, 40] {
+                            for &mem in mems {
                                 for addr in [0, 1, 2, mem as W - 2, mem as W, -1, MAX] {
                                     for answer in 0..9u8 {
                                         i += 1;
@@ -225,8 +227,8 @@ fn cases(mut f: impl FnMut(u64, Case)) {
 }
 
 fn run(cfg: &RunCfg, rep: &mut Report) {
-    rep.bound_completed = "full product of the listed menus (same in both tiers)".into();
-    cases(|i, c| {
+    rep.bound_completed = format!("full product of the listed menus{}", if cfg.tier == Tier::Thorough { " plus memory sizes 2,3,5,6,7 and keys [MIN,0,7], [1;9]" } else { "" });
+    cases(cfg.tier == Tier::Thorough, |i, c| {
         if cfg.mine(i / 64) {
             if i % 20011 == 0 {
                 rep.sample(|| json!(c));
